@@ -423,13 +423,29 @@ where
                 if a[0] % 2 == 0 {
                     b_.set = a_.set.clone();
                 } else {
+                    let (dd, sd) = (Self::dump_of(&b_.set), Self::dump_of(&a_.set));
+                    if dd.bucket_mask != sd.bucket_mask || dd.n_deleted() > 0 {
+                        self.labels |= dump::L_CLONE_FROM_DIFF;
+                    }
                     b_.set.clone_from(&a_.set);
                 }
                 b_.model = a_.model.clone();
                 b_.plan = a_.plan;
                 let _q = Quiet::new();
                 if !(a_.set == b_.set) || !(b_.set == a_.set) {
-                    bad!("C11", "clone-not-equal", "HashSet clone does not compare equal to its source");
+                    bad!("C11", "clone-not-equal", "HashSet clone{} does not compare equal to its source", if a[0] % 2 == 0 { "" } else { "_from" });
+                }
+                for (id, g) in &b_.model {
+                    match b_.set.get(&KeyRef(*id)) {
+                        Some(k) if k.gen() == *g => {}
+                        _ => bad!("C11", "clone-lookup-fails", "HashSet clone{}: element {id} of the source is not found in the clone", if a[0] % 2 == 0 { "" } else { "_from" }),
+                    }
+                }
+                if K::TRACKED {
+                    let sx: Vec<Option<u64>> = b_.set.iter().map(|e| e.serial()).collect();
+                    if a_.set.iter().any(|e| sx.contains(&e.serial())) {
+                        bad!("C11", "clone-shares-elements", "HashSet clone holds the same element objects as its source");
+                    }
                 }
             }
             ops::MIRROR => {
@@ -694,6 +710,10 @@ where
         let a = &self.slots[0];
         let b = &self.slots[1];
         let (ma, mb) = (Self::ids(&a.model), Self::ids(&b.model));
+        if ma == mb && !ma.is_empty() && a.plan != b.plan {
+            self.labels |= dump::L_EQ_DIFF_HISTORY;
+        }
+        let eq_prop = if self.case.h("prop") == 11 { "C11" } else { "C07" };
         let _q = Quiet::new();
         let checks: [(&str, bool, bool); 8] = [
             ("a.is_subset(b)", a.set.is_subset(&b.set), ma.is_subset(&mb)),
@@ -707,7 +727,7 @@ where
         ];
         for (name, got, want) in checks {
             if got != want {
-                bad!("C07", "predicate", "{name} = {got}, mathematically {want} (|a| = {}, |b| = {})", ma.len(), mb.len());
+                bad!(if name.contains("==") { eq_prop } else { "C07" }, "predicate", "{name} = {got}, mathematically {want} (|a| = {}, |b| = {})", ma.len(), mb.len());
             }
         }
         Ok(())
